@@ -368,10 +368,27 @@ def replay_case(case, variants, do_sink):
     return out, n_eval
 
 
+def failing_dump():
+    """A JSON dump that is abandoned half-way (a shared object is an alias,
+    which JSON cannot express).  It must not influence later dumps."""
+    st = _fns()
+    shared = [1, 2]
+    for obj, kw in (({'a': {'b': [shared, shared]}}, {}),
+                    ([[0], {'k': shared, 'l': [shared]}], {'indent': 2})):
+        try:
+            st['dumps'](obj, **kw)
+        except RuntimeError:
+            pass
+        except Exception:  # noqa
+            pass
+
+
 def _chunk(args):
     cases, variants, sink_every = args
     res = []
     for i, c in enumerate(cases):
+        if i % 50 == 0:
+            failing_dump()
         errs, n = replay_case(c, variants, i % sink_every == 0)
         res.append((errs, n))
     return res
